@@ -84,6 +84,18 @@ class Fn:
             return [(t["target"], ("ret",))]
         return []
 
+    def land(self, b):
+        """where an edge into b comes to rest: blocks that only mark storage and jump on are stepped over"""
+        seen = set()
+        while b not in seen:
+            seen.add(b)
+            blk = self.blocks[b]
+            if blk["term"]["k"] == "Goto" and all(s["k"] in ("StorageLive", "StorageDead", "Nop") for s in blk["stmts"]) and not blk.get("cleanup"):
+                b = blk["term"]["target"]
+            else:
+                break
+        return b
+
     def preds(self, b):
         if self._pred is None:
             self._pred = defaultdict(list)
